@@ -566,6 +566,24 @@ let dispatch (op : string) (args : string list) : string =
            let cb = if bb = "-" then None else (match zs bb with [w; s; e; n] -> Some (((w, s), e), n) | _ -> failwith bb) in
            show (update_from_pyramid cb (optn zmin) (optn zmax) (doc_of a))
        | _ -> "?tj-args")
+  | "tj.vl" ->
+      (* a layer list: "-" or items `hexid/fields/desc/min/max` joined by '&'; fields "-" or `hexk=hexv` joined by ','; desc "-" or S<hex> *)
+      let hexb t = if t = "" then [] else bytes_of_hex t in
+      let hexs b = if b = [] then "" else hex_of_bytes b in
+      let optn t = if t = "-" then None else Some (n_of_string t) in
+      let layer_of (t : string) = (match String.split_on_char '/' t with
+        | [id; fs; d; mn; mx] ->
+            (hexb id, { vl_fields = (if fs = "-" then [] else List.map (fun kv -> match String.split_on_char '=' kv with [k; v] -> (hexb k, hexb v) | _ -> failwith kv) (String.split_on_char ',' fs));
+                        vl_desc = (if d = "-" then None else Some (hexb (String.sub d 1 (String.length d - 1)))); vl_min = optn mn; vl_max = optn mx })
+        | _ -> failwith ("layer " ^ t)) in
+      let layers_of t = if t = "-" then [] else List.map layer_of (String.split_on_char '&' t) in
+      let show (ls : vlayers) =
+        let item (id, l) = Printf.sprintf "%s/%s/%s/%s/%s" (hexs id)
+          (if l.vl_fields = [] then "-" else String.concat "," (List.sort compare (List.map (fun (k, v) -> hexs k ^ "=" ^ hexs v) l.vl_fields)))
+          (match l.vl_desc with None -> "-" | Some d -> "S" ^ hexs d)
+          (match l.vl_min with None -> "-" | Some z -> string_of_n z) (match l.vl_max with None -> "-" | Some z -> string_of_n z) in
+        if ls = [] then "-" else String.concat "&" (List.sort compare (List.map item ls)) in
+      (match args with [a; b] -> show (vls_merge (layers_of a) (layers_of b)) | _ -> "?tj.vl-args")
   | "vplarg.bbox" | "vplarg.zoom" ->
       (* a parameter: "-" = not given, "()" = given without entries, otherwise its entries joined by ',' *)
       let param t = if t = "-" then None else if t = "()" then Some [] else Some (List.map codes (String.split_on_char ',' t)) in
